@@ -5,6 +5,7 @@ import KsVerif.Sched.Driver
 import KsVerif.Redis.Driver
 import KsVerif.Amqp.Driver
 import KsVerif.Http.Driver
+import KsVerif.Kafka.Driver
 import KsVerif.Kfl.MacroDriver
 import KsVerif.Kfl.Driver
 import KsVerif.Stages.Driver
@@ -16,6 +17,8 @@ def judge (fam payload impl : String) : Verdict :=
   | "progress" => Progress.judge payload impl
   | "http2.conv" => Http.Driver.judgeH2 payload impl
   | "http.conv" => Http.Driver.judgeConv payload impl
+  | "kafka.conv" => Kafka.Driver.judgeConv payload impl
+  | "kafka.raw" => Kafka.Driver.judgeRaw payload impl
   | "amqp.conv" => Amqp.Driver.judgeConv payload impl
   | "amqp.raw" => Amqp.Driver.judgeRaw payload impl
   | "amqp.split" => Amqp.Driver.judgeRaw payload impl (splitMode := true)
